@@ -152,7 +152,9 @@ structure Host where
   cur : Option Pool
   old : List Pool
   nextId : Nat
-  sessClosed : Bool
+  sessClosed : Bool    -- Session.Close has run policyConnPool.Close()
+  cancelled : Bool     -- … and has reached s.cancel(): the session context is cancelled, every later dial fails at once
+  lateAdd : Bool       -- ghost: an addHost ran after policyConnPool.Close() (and before the context was cancelled)
 deriving DecidableEq, Repr
 
 inductive Act where
@@ -165,8 +167,10 @@ inductive Act where
   | up                        -- policyConnPool.addHost: new pool if none is registered; pool.fill()
   | down                      -- policyConnPool.removeHost / SetHosts: unregister, `go pool.Close()`
   | pclose                    -- hostConnPool.Close() of the registered pool (it stays registered)
-  | sclose                    -- Session.Close: policyConnPool.Close (the attempts in flight are then failed by the
-                              -- cancelled session context: `fail` actions)
+  | sclose                    -- Session.Close, first half: policyConnPool.Close()
+  | scancel                   -- Session.Close, second half (after control connection and debouncers were stopped):
+                              -- s.cancel() — the attempts in flight are then failed by the cancelled session context
+                              -- (`fail` actions); between the two halves addHost still works
 deriving DecidableEq, Repr
 
 /-- apply f to the first pool on which it is defined -/
@@ -183,7 +187,7 @@ def firstOk (f : Pool → Option (Pool × Nat)) : List Pool → Option (List Poo
 def Host.init (c : Cfg) : Host :=
   { cfg := c,
     cur := some { conns := [1], filling := true, closed := false, att := mkAtts 2 (c.size - 1), rest := 0, opened := 1, pend := 0 },
-    old := [], nextId := 2 + (c.size - 1), sessClosed := false }
+    old := [], nextId := 2 + (c.size - 1), sessClosed := false, cancelled := false, lateAdd := false }
 
 def Host.routeOld (h : Host) (f : Pool → Option (Pool × Nat)) : Option Host :=
   match firstOk f h.old with
@@ -215,10 +219,14 @@ def Host.step (h : Host) : Act → Option Host
       | none => some h
   | .fillGo => h.route (fun p => Pool.fillGo h.cfg.size p h.nextId)
   | .up =>
-      if h.sessClosed then none
-      else match h.cur with
-        | some _ => some h.fillCur
-        | none => some ({ h with cur := some Pool.new }).fillCur
+      -- policyConnPool.addHost does not know that the session is closing: after policyConnPool.Close() it registers a
+      -- NEW pool and fills it (the dials succeed until the session context is cancelled)
+      if h.cancelled then none
+      else
+        let h0 := { h with lateAdd := h.lateAdd || h.sessClosed }
+        match h0.cur with
+        | some _ => some h0.fillCur
+        | none => some ({ h0 with cur := some Pool.new }).fillCur
   | .down => match h.cur with
       | some p => some { h with cur := none, old := p.close :: h.old }
       | none => some h
@@ -228,6 +236,7 @@ def Host.step (h : Host) : Act → Option Host
   | .sclose => match h.cur with
       | some p => some { h with cur := none, old := p.close :: h.old, sessClosed := true }
       | none => some { h with sessClosed := true }
+  | .scancel => if h.sessClosed then some { h with cancelled := true } else none
 
 def Host.run : Host → List Act → Option Host
   | h, [] => some h
